@@ -198,7 +198,7 @@ def worker(args, scratch):
                     if not any(f == a or f.startswith(a + "/") for a in ALLOWED_PREFIXES):
                         res["violations"].append(["file-altered-outside-allowed-locations", dict(wit, path=f)])
                 if strace_out and os.path.exists(strace_out):
-                    for line in open(strace_out, errors="replace"):
+                    for line in common.merge_strace(strace_out):
                         if "= -1" in line or ("O_WRONLY" not in line and "O_RDWR" not in line and "O_CREAT" not in line and not any(s + "(" in line for s in ("rename", "unlink", "mkdir", "rmdir", "chmod", "truncate", "link"))):
                             continue
                         import re
